@@ -155,6 +155,9 @@ func runLifeProfile(l *Life, profile string, n, steps int) {
 			p = SynProfile()
 		case "mergey":
 			p = MergeyProfile()
+		case "bounds":
+			l.BoundsScenario(fmt.Sprintf("%s-%d", profile, i))
+			continue
 		case "leanmulti":
 			l.LeanMultiScenario(fmt.Sprintf("%s-%d", profile, i))
 			continue
